@@ -7,6 +7,7 @@ import inspect
 import textwrap
 
 REGISTRY = {}          # id(function object) -> Contract
+REGISTRY_RV = {}       # id(function object) -> Contract of the real-order view (see contracts/realview.py)
 BY_NAME = {}           # dotted name -> Contract
 TABLES = {}            # id(table object) -> TableModel
 DICTS = {}             # id(dict object) -> DictModel
@@ -29,8 +30,9 @@ def resolve(dotted):
 
 
 class Contract(object):
-    def __init__(self, target, cls):
+    def __init__(self, target, cls, view=None):
         self.target = target
+        self.view = view
         d = {}
         for k in reversed(cls.__mro__):
             if k is not object:
@@ -76,6 +78,22 @@ class Contract(object):
         self.post_hints = list(d.get('post_hints', []))
         for src in self.post_hints:
             _check_ghost(src, target)
+        # closure_model: free variable name -> dict(fields={attr: shape}, call=spec fn, call_requires=spec fn):
+        # the free variable is an abstract object with symbolic fields and an assumed call contract
+        self.closure_model = dict(d.get('closure_model', {}))
+        # state: pseudo-parameter name -> (free variable, field): entry value under that name in requires/ensures,
+        # final value under <name>_out in ensures
+        self.state = dict(d.get('state', {}))
+        # ghost_params: universally quantified extra symbols (name -> shape) visible to requires / ensures only
+        self.ghost_params = dict(d.get('ghost_params', {}))
+        self.requires_g = d.get('requires_g')     # the part of the precondition that mentions ghost parameters
+        # call_insts: (callee short name, k-th call on the path) or callee short name -> [ {ghost: expression source} ]
+        self.call_insts = dict(d.get('call_insts', {}))
+        self.no_replay = bool(d.get('no_replay', False))
+        # native_harness(args) -> dict(result=..., <state>_out=...): runs the real code around a native model of
+        # the closure (used only by the native counterexample search / replay of closure contracts)
+        nh = d.get('native_harness')
+        self.native_harness = nh.__func__ if isinstance(nh, staticmethod) else nh
         self.native_clauses = set(d.get('native_clauses', ()))   # ensures evaluated only natively (bounded tier)
         self.feas_rlimit = d.get('feas_rlimit')   # per-contract budget of path-feasibility queries
         self.search = d.get('search')      # name of an input generator (gens.GENS) for the native counterexample search
@@ -116,9 +134,15 @@ def _check_ghost(src, target):
     raise ValueError('%s: ghost statement must be g_* = ... or lemma_*(...): %s' % (target, src))
 
 
-def contract(target):
+def contract(target, view=None):
     def deco(cls):
-        c = Contract(target, cls)
+        c = Contract(target, cls, view)
+        if view == 'real':
+            REGISTRY_RV[id(c.func)] = c
+            c.name = 'real:' + target
+            BY_NAME[c.name] = c
+            return cls
+        c.name = target
         REGISTRY[id(c.func)] = c
         BY_NAME[target] = c
         return cls
